@@ -6,7 +6,11 @@ usage: run_benign.py DIR_WITH_patch.diff [...]   -> exit 1 from a check = false 
 import os, re, shutil, subprocess, sys, tempfile
 from concurrent.futures import ThreadPoolExecutor
 
+sys.path.insert(0, "/verif")
+from gv.patching import apply_patch  # noqa: E402
+
 PY = "/venv/bin/python"
+BASE = os.environ.get("GV_PATCH_BASE")  # commit the patches were written against (default: see gv/patching.py)
 PROPS = [f"C{i:02d}" for i in range(1, 21)]
 
 
@@ -16,9 +20,10 @@ def run(d):
         dst = os.path.join(tmp, "repo")
         os.makedirs(dst)
         subprocess.run(f"cd /repo && git ls-files -z gaftools docs | xargs -0 cp --parents -t {dst}", shell=True, check=True)
-        p = subprocess.run(f"cd {dst} && git init -q . && git apply {d}/patch.diff", shell=True, capture_output=True, text=True)
-        if p.returncode != 0:
-            return d, {"error": p.stderr[-200:]}
+        subprocess.run(["git", "init", "-q", "."], cwd=dst, capture_output=True)
+        ok, msg = apply_patch(dst, os.path.join(os.path.abspath(d), "patch.diff"), BASE)
+        if not ok:
+            return d, {"error": msg}
         res = {}
         for pr in PROPS:
             env = dict(os.environ, GV_EVIDENCE_DIR=os.path.join(tmp, "ev"))
